@@ -268,6 +268,161 @@ def ob_call_result(run, mir, rp, fam):
     run.samples.append({"obligation": ob.id, "paths": n})
 
 
+def compound_family(rp):
+    f = e2.Family(rp)
+    vec = "class V(def x: Int)\n    def + (self, other: V) -> V => V(self.x + other.x)\n"
+    f.add("compound-minus-on-str", "def s := \"hello\"\ns -= \"lo\"", "reject")
+    f.add("compound-plus-on-str", "def s := \"hello\"\ns += \"lo\"", "accept")
+    f.add("compound-minus-on-class-with-plus-only", vec + "def v := V(1)\nv -= V(2)", "reject")
+    f.add("compound-plus-on-class-with-plus-only", vec + "def v := V(1)\nv += V(2)", "accept")
+    f.add("compound-times-on-str-str", "def s := \"a\"\ns *= \"b\"", "reject")
+    f.add("compound-divide-int-stays-int", "def i: Int := 4\ni /= 2", "reject")
+    f.add("compound-power-int", "def i: Int := 4\ni ^= 2", "accept")
+    f.add("compound-minus-int", "def i: Int := 4\ni -= 2", "accept")
+    return f
+
+
+def ob_compound_assignment(run, mir, rp, fam):
+    ob = run.ob("compound-assignment-typing-table", "E2+z3", "reassign_op (how `x op= e` is typed): for every compound operator the checker builds the binary node OF THE "
+                "SAME OPERATOR over (x, e) (so `x -= e` is typed through __sub__, like `x - e`), generates it, and then types the plain assignment "
+                "`x := <that node>`; any other operator is an error", ["reassign_op"])
+    fn = e2.find1(mir, file=CALL_RS, name="reassign_op")
+    ex = Exec(mir, max_paths=5000)
+    nodeops = ex.enum_variants("NodeOp")
+    got = {}
+    for k in nodeops:
+        st = State()
+        mk = lambda n: Ref(ex.new_cell(st, ckern.mk_ast(n, opq(n + ".node", "Node"))[0]))
+        astr, left, right = mk("ast"), mk("left"), mk("right")
+        env, _ev = ckern.sym_env(ex, st)
+        ctx, constr = ckern.refs(ex, st, "ctx", "constr")
+        ends = e2.run_kernel(run, ex, fn, [astr, left, right, Ref(ex.new_cell(st, Agg("NodeOp", k, []))), env, ctx, constr], st)
+        shapes = set()
+        for p in ends:
+            gens = calls(p, "generate")
+            if not gens:
+                shapes.add("<err>" if result_kind(p) == "Err" else "<nothing>")
+                continue
+            a0 = gens[0]["args"][0]
+            v = ex.read_ref(p.state, a0) if isinstance(a0, Ref) else a0
+
+            def node_of(val):
+                if isinstance(val, Agg) and val.names and "node" in val.names:
+                    return val.fields[val.names.index("node")]
+                tv = ex.to_val(p.state, val)
+                for e_ in p.events:
+                    if e_["name"].endswith("AST::new") and z3.eq(ex.to_val(p.state, e_["ret"]), tv):
+                        n_ = e_["args"][1]
+                        return ex.read_ref(p.state, n_) if isinstance(n_, Ref) else n_
+                return None
+            node = node_of(v)
+            if not (isinstance(node, Agg) and node.names and set(node.names) >= {"left", "right"}):
+                shapes.add("<?>")
+                continue
+            l_ok = z3.eq(ex.to_val(p.state, node.fields[node.names.index("left")]), ex.to_val(p.state, left))
+            r_ok = z3.eq(ex.to_val(p.state, node.fields[node.names.index("right")]), ex.to_val(p.state, right))
+            second = "<no-assign>"
+            if len(gens) > 1:
+                b0 = gens[1]["args"][0]
+                w = ex.read_ref(p.state, b0) if isinstance(b0, Ref) else b0
+                wn = node_of(w)
+                if isinstance(wn, Agg) and wn.variant == "Reassign" and wn.names:
+                    opv = wn.fields[wn.names.index("op")]
+                    rv = wn.fields[wn.names.index("right")]
+                    second = "assign" if (isinstance(opv, Agg) and opv.variant == "Assign" and z3.eq(ex.to_val(p.state, rv), ex.to_val(p.state, v)) and
+                                          z3.eq(ex.to_val(p.state, wn.fields[wn.names.index("left")]), ex.to_val(p.state, left))) else "<other-assign>"
+            shapes.add(f"{node.variant}({'x' if l_ok else '?'}, {'e' if r_ok else '?'}) then {second}" if result_kind(p) != "Err" or len(gens) else "<err>")
+        shapes -= {s_ for s_ in shapes if s_.endswith("<no-assign>") and any(t.startswith(s_.split(" then ")[0]) and t.endswith("assign") for t in shapes)}
+        got[k] = sorted(shapes)
+    DOC = {"Add", "Sub", "Mul", "Div", "Pow", "BLShift", "BRShift"}          # the compound assignment operators of the language
+    want = {k: ([f"{k}(x, e) then assign"] if k in DOC else ["<err>"]) for k in nodeops}
+    kv = z3.Int("node_op")
+    okv = z3.BoolVal(True)
+    for i, k in enumerate(nodeops):
+        okv = z3.If(kv == i, z3.BoolVal(got[k] == want[k]), okv)
+    dom = z3.And(kv >= 0, kv < len(nodeops))
+    found, block = [], []
+    for _ in range(len(nodeops) + 1):
+        r_, m_, dt, _s = e2.solve(ex, [dom, z3.Not(okv)] + block)
+        ob.solver_s += dt
+        ob.queries += 1
+        if r_ != z3.sat:
+            break
+        ki = m_.eval(kv).as_long()
+        found.append(nodeops[ki])
+        block.append(kv != ki)
+    ob.reach = "sat"
+    run.samples.append({"obligation": ob.id, "table": got})
+    cf = compound_family(rp)
+    if not found:
+        ob.discharged(f"unsat over {len(nodeops)} operators")
+        k_, bad = cf.run()
+        run.validated += k_
+        if bad:
+            ob.status = "pending"
+            ob.inconclusive(f"compound-assignment family disagrees although the table is as documented: {bad[:2]}")
+    else:
+        rep = cf.as_replay("compound-assignment:")({})
+        if rep.get("reproduced"):
+            ob.violated(rep["role"], {"operators": found, "table": {k: got[k] for k in found}}, rep, rep["detail"])
+        else:
+            ob.inconclusive(f"solver reports {found} as desugared differently ({ {k: got[k] for k in found} }) but the replay programs get the required verdicts")
+
+
+BITWISE = ["BAnd", "BOr", "BXOr", "BLShift", "BRShift", "BOneCmpl"]
+
+
+def ob_bitwise_typed(run, mir, rp, fam):
+    ob = run.ob("bitwise-operators-typed", "E2", "gen_op: the bitwise and shift operators are typed as a method of their left operand (gen_magic with a dunder name, "
+                "operands in source order), like the arithmetic operators - an operand whose class has no such method is a type error at compile time, "
+                "not a TypeError at run time", ["gen_op (BAnd, BOr, BXOr, BLShift, BRShift, BOneCmpl)"])
+    fn = e2.find1(mir, file=OP_RS, name="gen_op")
+    _rel, lay = ckern.node_enum()
+    ex = Exec(mir, max_paths=5000)
+    untyped = []
+    for kind in BITWISE:
+        if kind not in lay:
+            raise Unsupported(f"Node::{kind} not found")
+        st = State()
+        vals = {}
+        for f in lay[kind] or []:
+            a_, _pp = ckern.mk_ast(f"{kind}.{f}", opq(f"{kind}.{f}.node", "Node"))
+            vals[f] = Ref(ex.new_cell(st, a_))
+        ast, _ = ckern.mk_ast("ast", ckern.mk_node(kind, vals))
+        env, ctx, constr = ckern.refs(ex, st, "env", "ctx", "constr")
+        ends = e2.run_kernel(run, ex, fn, [Ref(ex.new_cell(st, ast)), env, ctx, constr], st)
+        oks = [p for p in ends if result_kind(p) != "Err" and p.kind == "return"]
+        typed = bool(oks) and all(any(isinstance(g["args"][0], StrC) and re.fullmatch(r"__\w+__", g["args"][0].s) for g in calls(p, "gen_magic")) or
+                                  any("Access" in str(a["argvals"]) for a in calls(p, "ConstrBuilder::add")) for p in oks)
+        if not typed:
+            untyped.append(kind)
+    f = e2.Family(rp)
+    f.add("shift-left-on-str", "def s := \"a\"\ndef t := s << 1", "reject")
+    f.add("shift-right-on-str", "def s := \"a\"\ndef t := s >> 1", "reject")
+    f.add("and-on-str", "def s := \"a\"\ndef t := s _and_ 1", "reject")
+    f.add("or-on-float", "def s := 1.5\ndef t := s _or_ 1", "reject")
+    f.add("xor-on-str", "def s := \"a\"\ndef t := s _xor_ \"b\"", "reject")
+    f.add("complement-on-str", "def s := \"a\"\ndef t := _not_ s", "reject")
+    f.add("shift-left-on-int", "def s := 1\ndef t := s << 1", "accept")
+    f.add("and-on-int", "def s := 6\ndef t := s _and_ 3", "accept")
+
+    def replay(model):
+        k_, bad = f.run()
+        if bad:
+            roles = sorted(b["role"] for b in bad)
+            return {"reproduced": True, "role": "bitwise-untyped:" + "+".join(roles), "failing_programs": roles,
+                    "detail": f"program {bad[0]['src']!r}: expected {bad[0]['expected']}, real verdict {bad[0]['got']} (the emitted Python raises TypeError)"}
+        return {"reproduced": False, "detail": f"all {k_} programs behave as required"}
+    e2.prove(run, ob, ex, [], z3.BoolVal(not untyped), {}, replay)
+    if ob.status == "discharged":
+        r_ = replay({})
+        run.validated += len(f.items)
+        if r_["reproduced"]:
+            ob.status = "pending"
+            ob.inconclusive("bitwise family disagrees although the operators are typed: " + r_["detail"])
+    run.samples.append({"obligation": ob.id, "typed_as_any": untyped})
+
+
 def ob_method_parameters(run, mir, rp, fam):
     ob = run.ob("method-parameters", "E2", "unify_fun_arg (method and operator calls), one iteration of the formal/actual zip from an "
                 "arbitrary loop state: surplus actual => Err; missing actual without default => Err, with default => continue without "
@@ -1461,7 +1616,7 @@ def run(run):
                "outside: that a violation is still caught in every nesting context (branch forking in ConstrBuilder); the accepted-exactly-when direction for whole programs")
     run.trusted += ["rustc nightly MIR dump", "mirsym MIR semantics", "z3"]
     run.bounds = {"paths": "all paths of each kernel with loops cut at their headers"}
-    for f in (ob_call_parameters, ob_call_result, ob_method_parameters, ob_fn_value_arguments, ob_access_direction, ob_shadow_mapping, ob_operator_typing, ob_flow_constraints, ob_return, ob_id_from_var, ob_initialiser_scope, ob_fun_body, ob_fun_body_scope, ob_branch_scope, ob_arm_scope, ob_unify_type):
+    for f in (ob_call_parameters, ob_call_result, ob_compound_assignment, ob_method_parameters, ob_fn_value_arguments, ob_access_direction, ob_shadow_mapping, ob_operator_typing, ob_flow_constraints, ob_return, ob_id_from_var, ob_initialiser_scope, ob_fun_body, ob_fun_body_scope, ob_branch_scope, ob_arm_scope, ob_unify_type):
         try:
             f(run, mir, rp, fam)
         except Unsupported as e:
